@@ -80,7 +80,11 @@ def check_one(sid, tier, jobs):
     with open(os.path.join(d, 'meta.json')) as f:
         meta = json.load(f)
     props = meta.get('check_with') or [meta['property']]
-    scratch = scratch_copy(os.path.join(d, 'patch.diff'))
+    try:
+        scratch = scratch_copy(os.path.join(d, 'patch.diff'))
+    except RuntimeError as err:
+        # (the library has moved on under the patch: it has to be rebased by hand)
+        return meta, {p: {'rc': -1, 'caught': False, 'lines': [str(err)[:200]]} for p in props}
     try:
         res = run_checks(scratch, props, tier, jobs)
     finally:
@@ -207,6 +211,8 @@ def main(argv):
         with concurrent.futures.ThreadPoolExecutor(max(1, 16 // jobs)) as ex:
             for sid, (meta, res) in zip(todo, ex.map(lambda s: check_one(s, tier, jobs), todo)):
                 meta.setdefault('detected', {})[tier] = res
+                if not os.path.isdir(os.path.join(SEEDED, sid)):
+                    continue        # withdrawn while the run was in progress
                 with open(os.path.join(SEEDED, sid, 'meta.json'), 'w') as f:
                     json.dump(meta, f, indent=1)
                 print(sid, {p: ('CAUGHT' if r['caught'] else f"missed rc={r['rc']}")
